@@ -21,6 +21,13 @@ INJECT = {
 for src, dst in INJECT.items():
     if os.path.exists(os.path.join(root, src)):
         rep[dst] = os.path.join(root, src)
+# source files shared between main packages
+SHARE = {
+    'c18/gen.go': ['c15/zz_gen_c18.go'],
+}
+for src, dsts in SHARE.items():
+    for dst in dsts:
+        rep['/repo/internal/zzverif/' + dst] = os.path.join(root, src)
 for extra in sys.argv[2:]:
     rep.update(json.load(open(extra))['Replace'])
 json.dump({'Replace': rep}, open(sys.argv[1], 'w'), indent=1)
